@@ -139,18 +139,19 @@ func (vfs *BasePathFS) FromLinkError(err error) error {
 
 // ToBasePath transforms a BasePathFS path to an internal path.
 // When the base path is "/base/path", ToBasePath("/tmp") returns "/base/path/tmp".
+// A relative path is resolved against the current directory of the BasePathFS.
+// The path is cleaned before the base path is prepended: ".." elements can't climb above
+// the root directory of the BasePathFS, the result is always the base path or a path below it.
 func (vfs *BasePathFS) ToBasePath(path string) string {
-	if path == "" || path == "/" {
-		return vfs.basePath
+	if !vfs.IsAbs(path) {
+		dir, _ := vfs.baseFS.Getwd()
+		path = vfs.Join(vfs.curDir(dir), path)
 	}
 
-	if vfs.IsAbs(path) {
-		vl := avfs.VolumeNameLen(vfs, path)
+	path = vfs.Clean(path)
+	vl := avfs.VolumeNameLen(vfs, path)
 
-		return vfs.basePath + path[vl:]
-	}
-
-	return path
+	return vfs.Join(vfs.basePath, path[vl:])
 }
 
 // Name returns the name of the fileSystem.
